@@ -18,6 +18,7 @@ import LA.Drive.Unicode
 import LA.Drive.Entry
 import LA.Drive.Api
 import LA.Drive.Acl
+import LA.Drive.Thr
 open LA
 
 def engines : List (String × Engine) := [
@@ -38,7 +39,8 @@ def engines : List (String × Engine) := [
   ("uni", LA.Unicode.engine),
   ("ent", LA.Entry.engine),
   ("api", LA.Api.engine),
-  ("acl", LA.Acl.engine)
+  ("acl", LA.Acl.engine),
+  ("thr", LA.Thr.engine)
 ]
 
 partial def loop (e : Engine) (h : IO.FS.Stream) (out : IO.FS.Stream) (s : e.σ) : IO Unit := do
